@@ -696,3 +696,42 @@ PROPS["C04"] = {
     "assumptions": ["floats read as reals, every division's denominator assumed non-zero (interior of the domain)",
                     "counterexamples are replayed natively in float64 with relative tolerance 1e-6"],
 }
+
+# ----------------------------------------------------------------------------- C05
+def c05_jobs(tier):
+    jobs = []
+    quick = tier == "quick"
+
+    def J(f, a, **kw):
+        jobs.append(dict({"pkg": ZZ, "func": f, "args": a, "mode": "real", "intmode": "int"}, **kw))
+    for kind in (0, 1):
+        for n in ((2,) if quick else (2, 3)):
+            for variant in (0, 1):
+                for junk in (0, 1):
+                    J("verif_C05_cholesky", [kind, n, variant, junk])
+            J("verif_C05_gramschmidt", [kind, n])
+        if quick:
+            J("verif_C05_cholesky", [kind, 3, 0, 0])
+            J("verif_C05_cholesky", [kind, 3, 1, 0])
+        J("verif_C05_forcepd", [kind, 2])
+        for w in range(3):
+            J("verif_C05_forcepd_graded", [kind, w], mode="fp")
+        J("verif_C05_givens", [kind])
+    return jobs
+
+
+PROPS["C05"] = {
+    "overlay": [RT, ("zzverif/c04.go", "zzverif/c04.go"), ("zzverif/c05.go", "zzverif/c05.go")],
+    "patterns": ["./zzverif"],
+    "mode": "real", "intmode": "int",
+    "jobs": c05_jobs,
+    "reach": ["cholesky-returned", "forcepd-returned", "forcepd-graded", "gs-returned", "givens"],
+    "replay_tol": 1e-6,
+    "job_budget_ms": {"quick": 150000, "thorough": 1500000},
+    "selftest_vars": [],
+    "bounds": {"quick": "Cholesky and LDL on fully symbolic symmetric 2x2 and 3x3 Float64/Real64 matrices (with and without caller-supplied buffers holding other values), forced-PD LDL structure/positivity on symbolic 2x2 and "
+                        "reconstruction on three concrete graded safely-PD matrices, Gram-Schmidt on symbolic 2x2, Givens rotation on a symbolic pair; real interpretation (sqrt as constrained fresh variables)",
+               "thorough": "Gram-Schmidt 3x3"},
+    "outside": "the iterative factorisations (Householder reductions, Hessenberg reduction, QR algorithm, eigensystem, SVD, matrix square roots): their convergence-dependent post-conditions are not encoded; conditioning/rounding",
+    "assumptions": ["floats read as reals; denominators and radicands assumed in the domain", "counterexamples replayed natively with relative tolerance 1e-6"],
+}
